@@ -113,6 +113,9 @@ pub fn len_strategy(tier: Tier, max_quick: usize, max_thorough: usize) -> BoxedS
 
 pub const ALL_CLASSES: &[u8] = &[0, 1, 2, 3, 4, 5, 6, 7, 8, 9, 11, 12];
 /// tie-heavy classes for the extrema / rank family
+/// ALL_CLASSES plus the price-like class 13 (twice): used where the oracle's tolerance follows the history
+/// magnitude, so that a level / spread ratio of 1e3..1e7 is meaningful
+pub const PRICE_CLASSES: &[u8] = &[0, 1, 2, 3, 4, 5, 6, 7, 11, 12, 13, 13, 13];
 pub const TIE_CLASSES: &[u8] = &[0, 10, 1, 4, 5, 5, 6, 6, 8, 2, 11];
 
 pub fn raw_series(len: impl Strategy<Value = usize> + 'static) -> impl Strategy<Value = RawSeries> {
@@ -145,6 +148,7 @@ pub fn class_name(class: u8) -> &'static str {
         10 => "ulp_neighbours",
         11 => "medium_int",
         12 => "scale_shift",
+        13 => "price_ticks",
         _ => "small_int",
     }
 }
@@ -166,6 +170,9 @@ pub fn values_of(rs: &RawSeries, integer: bool, f32ok: bool) -> (Vec<f64>, &'sta
         class = 0;
     }
     if class == 12 && (integer || f32ok) {
+        class = 1;
+    }
+    if class == 13 && (integer || f32ok) {
         class = 1;
     }
     if class == 11 && f32ok {
@@ -203,6 +210,37 @@ pub fn values_of(rs: &RawSeries, integer: bool, f32ok: bool) -> (Vec<f64>, &'sta
                     k = (k + 1 + (a.rem_euclid(2)) as usize) % SEG.len();
                 }
                 out.push(*a as f64 / RAW_MAX as f64 * SEG[k]);
+            }
+        },
+        13 => {
+            // price-like data: a walk in ticks around a level that is thousands to millions of ticks away
+            // from zero (level / spread ratio 1e3..1e7), with occasional jumps to another level (a much
+            // lower one, zero, or the mirrored one) - the shape of a quoted price series, and the regime in
+            // which raw power sums cancel and any re-centring / compensation logic is exercised
+            const LEVELS: [f64; 5] = [10.0, 100.0, 1000.0, 2500.0, 50000.0];
+            const TICKS: [f64; 3] = [0.01, 0.05, 1.0];
+            let level = LEVELS[(rs.cparam % 5) as usize];
+            let tick = TICKS[(rs.cparam / 5 % 3) as usize];
+            let change = 4 + (rs.cparam / 15 % 16);
+            let mut base = level;
+            let mut tk = tick;
+            let mut pos = 0i64;
+            for (i, (a, r)) in rs.raw.iter().enumerate() {
+                if i > 0 && *r < change {
+                    // a jump changes the level and sometimes the spread (a well-conditioned stretch after
+                    // an ill-conditioned one)
+                    (base, tk) = match a.rem_euclid(6) {
+                        0 => (level, tick),
+                        1 => (level / 100.0, tick),
+                        2 => (0.0, tick),
+                        3 => (-level, tick),
+                        4 => (level, tick * 1000.0),
+                        _ => (0.0, tick * 1000.0),
+                    };
+                    pos = 0;
+                }
+                pos += (a.rem_euclid(7) - 3) as i64;
+                out.push(base + pos as f64 * tk);
             }
         },
         11 => {
